@@ -1,13 +1,13 @@
 #!/bin/sh
 # confirm_seed.sh <Cxx> : confirm a sub-agent's seeded change in its scratch worktree at /repo's current HEAD
-id=$1; wt=/tmp/seed/$id/wt; out=/tmp/seed/$id/out
+id=$1; root=${SEED_ROOT:-/tmp/seed}; wt=$root/$id/wt; out=$root/$id/out
 head=$(git -C /repo rev-parse HEAD)
 git -C $wt checkout -q --detach $head 2>/dev/null; git -C $wt checkout -q -- . ; git -C $wt clean -fdq
 cd $wt
-PYTHONPATH=$wt timeout 120 /venv/bin/python $out/demo.py >/tmp/seed/$id/demo_clean.log 2>&1; c0=$?
+PYTHONPATH=$wt timeout 120 /venv/bin/python $out/demo.py >$root/$id/demo_clean.log 2>&1; c0=$?
 if ! git apply --check $out/patch.diff 2>/dev/null; then echo "$id patch does not apply at $head"; git apply -3 $out/patch.diff || exit 2; else git apply $out/patch.diff; fi
-PYTHONPATH=$wt /venv/bin/python -m pytest -q -p no:cacheprovider --timeout=900 >/tmp/seed/$id/tests.log 2>&1; t=$?
-PYTHONPATH=$wt timeout 120 /venv/bin/python $out/demo.py >/tmp/seed/$id/demo_patched.log 2>&1; c1=$?
-git diff HEAD > /tmp/seed/$id/patch_at_head.diff
+PYTHONPATH=$wt /venv/bin/python -m pytest -q -p no:cacheprovider --timeout=900 >$root/$id/tests.log 2>&1; t=$?
+PYTHONPATH=$wt timeout 120 /venv/bin/python $out/demo.py >$root/$id/demo_patched.log 2>&1; c1=$?
+git diff HEAD > $root/$id/patch_at_head.diff
 git reset -q --hard HEAD; git clean -fdq
-echo "$id clean_demo_exit=$c0 tests_exit=$t ($(tail -1 /tmp/seed/$id/tests.log)) patched_demo_exit=$c1"
+echo "$id clean_demo_exit=$c0 tests_exit=$t ($(tail -1 $root/$id/tests.log)) patched_demo_exit=$c1"
